@@ -7,8 +7,17 @@
 
 static const int nrb_list[] = { 0, 1, 2, 3, 4, 5, 6, 7, 8, 9, 10, 11, 12, 13, 14, 15, 16, 17, 18, 19, 20, 21, 22, 23, 24, 25,
   26, 27, 28, 29, 30, 31, 32, 33, 34, 35, 36, 37, 38, 39, 40, 41, 42, 43, 44, 45, 46, 47, 48, 49, 50, 51, 52, 53, 54, 55,
-  56, 57, 58, 59, 60, 61, 62, 63, 64, 65, 66, 67, 68, 69, 70, 128, 255, 256 };
+  56, 57, 58, 59, 60, 61, 62, 63, 64, 65, 66, 67, 68, 69, 70, 128, 255, 256,
+  /* the rest of 0..256 (appended so that earlier replay tokens keep their meaning); quick uses every 5th of these plus 129..200 */
+  71, 72, 73, 74, 75, 76, 77, 78, 79, 80, 81, 82, 83, 84, 85, 86, 87, 88, 89, 90, 91, 92, 93, 94, 95, 96, 97, 98, 99, 100, 101, 102, 103, 104, 105,
+  106, 107, 108, 109, 110, 111, 112, 113, 114, 115, 116, 117, 118, 119, 120, 121, 122, 123, 124, 125, 126, 127, 129, 130, 131, 132, 133, 134, 135,
+  136, 137, 138, 139, 140, 141, 142, 143, 144, 145, 146, 147, 148, 149, 150, 151, 152, 153, 154, 155, 156, 157, 158, 159, 160, 161, 162, 163, 164,
+  165, 166, 167, 168, 169, 170, 171, 172, 173, 174, 175, 176, 177, 178, 179, 180, 181, 182, 183, 184, 185, 186, 187, 188, 189, 190, 191, 192, 193,
+  194, 195, 196, 197, 198, 199, 200, 201, 202, 203, 204, 205, 206, 207, 208, 209, 210, 211, 212, 213, 214, 215, 216, 217, 218, 219, 220, 221, 222,
+  223, 224, 225, 226, 227, 228, 229, 230, 231, 232, 233, 234, 235, 236, 237, 238, 239, 240, 241, 242, 243, 244, 245, 246, 247, 248, 249, 250, 251,
+  252, 253, 254 };
 #define NNRB ((int) (sizeof nrb_list / sizeof *nrb_list))
+#define NNRB_OLD 74
 
 /* prefix arguments: 16 tags, NULL, a full hash of each method, a bare setting of each */
 #define NPREF (M_COUNT + 1 + 2 * M_COUNT)
@@ -147,8 +156,8 @@ one (int pi, int ci, int ni, int fill, int do_hash)
     rb2[i] = i < nrb ? rb[i] : (unsigned char) ~rb[i];
   snprintf (cj, sizeof cj, "{\"prefix\":%s,\"method\":\"%s\",\"count\":%lu,\"nrbytes\":%d,\"fill\":%d,\"replay\":\"%d:%d:%d:%d:%d\"",
             vh_jstr (pref[pi]), vh_methods[m].name, count, nrb, fill, pi, ci, ni, fill, do_hash);
-  char o192[CRYPT_GENSALT_OUTPUT_SIZE + 8], o256[256 + 8], again[CRYPT_GENSALT_OUTPUT_SIZE];
-  char *r1 = 0, *r2 = 0, *r3 = 0, *r0 = 0, *r1b = 0;
+  char o192[CRYPT_GENSALT_OUTPUT_SIZE + 8], o256[256 + 8], again[CRYPT_GENSALT_OUTPUT_SIZE], o384[384], o1024[1024];
+  char *r1 = 0, *r2 = 0, *r3 = 0, *r0 = 0, *r1b = 0, *r4 = 0, *r5 = 0;
   char s0[CRYPT_GENSALT_OUTPUT_SIZE] = "";
   int k = VH_TRY (0);
   if (k == 0)
@@ -158,9 +167,11 @@ one (int pi, int ci, int ni, int fill, int do_hash)
       r3 = crypt_gensalt_ra (pref[pi], count, (const char *) rb, nrb);
       r0 = crypt_gensalt (pref[pi], count, (const char *) rb, nrb);
       r1b = crypt_gensalt_rn (pref[pi], count, (const char *) rb2, nrb, again, sizeof again);
+      r4 = crypt_gensalt_rn (pref[pi], count, (const char *) rb, nrb, o384, sizeof o384);
+      r5 = crypt_gensalt_rn (pref[pi], count, (const char *) rb, nrb, o1024, sizeof o1024);
       VH_END ();
     }
-  vh_stat ("evaluations", 5);
+  vh_stat ("evaluations", 7);
   if (k)
     {
       snprintf (sig, sizeof sig, "fatal/%s/method=%s", vh_fatal_name (k), vh_methods[m].name);
@@ -169,6 +180,50 @@ one (int pi, int ci, int ni, int fill, int do_hash)
     }
   if (r0)
     snprintf (s0, sizeof s0, "%s", r0);
+  /* larger buffers: whatever they receive must satisfy the same obligations (shorter than CRYPT_GENSALT_OUTPUT_SIZE, safe,
+     tagged, accepted by crypt) and equal the documented-size result when that exists; a larger buffer may succeed where
+     the documented size reports ERANGE, never the other way round */
+  {
+    char *big[3] = { r2, r4, r5 };
+    const char *bn[3] = { "256", "384", "1024" };
+    for (int b = 0; b < 3; b++)
+      {
+        const char *why = 0;
+        if (big[b] && (strlen (big[b]) >= CRYPT_GENSALT_OUTPUT_SIZE || !passwd_safe (big[b]) || !*big[b]))
+          why = "not-shorter-than-CRYPT_GENSALT_OUTPUT_SIZE-or-unsafe";
+        else if (big[b] && !begins_with_tag (m, big[b]))
+          why = "wrong-method-tag";
+        else if (big[b] && crypt_checksalt (big[b]) == CRYPT_SALT_INVALID)
+          why = "checksalt-invalid";
+        else if (big[b] && r1 && strcmp (big[b], r1))
+          why = "differs-from-the-documented-size-result";
+        else if (!big[b] && r1)
+          why = "fails-where-the-documented-size-succeeds";
+        else if (b && !big[b] && big[b - 1])
+          why = "fails-where-a-smaller-buffer-succeeds";
+        else if (b && big[b] && big[b - 1] && strcmp (big[b], big[b - 1]))
+          why = "larger-buffers-differ";
+        else if (big[b] && !r1 && do_hash)
+          {
+            char *h = crypt_rn ("pa55w0rd", big[b], cd, sizeof *cd);
+            vh_stat ("hashes", 1);
+            if (!h && !(errno == ENOMEM && vh_mmap_capped))
+              why = "generated-setting-rejected";
+            vh_mmap_capped = 0;
+          }
+        if (why)
+          {
+            snprintf (sig, sizeof sig, "larger-buffer/%s/method=%s", why, vh_methods[m].name);
+            vh_viol (sig, "%s,\"output_size\":%s,\"result\":%s,\"rn192\":%s}", cj, bn[b], vh_jstr (big[b]), vh_jstr (r1));
+            free (r3);
+            return;
+          }
+      }
+    if ((r2 || r4 || r5) && !r1)
+      vh_stat ("only_larger_buffers_succeed", 1);
+    if (r2 && !r1)
+      r2 = 0;                   /* the documented-size entry points all report ERANGE: compared among themselves below */
+  }
   int nok = !!r1 + !!r2 + !!r3 + !!r0 + !!r1b;
   if (nok != 0 && nok != 5)
     {
@@ -299,6 +354,10 @@ main (int argc, char **argv)
               if (!vh_mine (idx))
                 continue;
               int nrb = nrb_list[ni];
+              if (ni >= NNRB_OLD && !vh_thorough && !((nrb >= 129 && nrb <= 200) || nrb % 5 == 0))
+                continue;
+              if (ni >= NNRB_OLD && f != 0 && pi > M_COUNT)
+                continue;
               int budget = vh_thorough ? counts[m][ci].hash_thorough : counts[m][ci].hash_quick;
               /* hashing sub-grid: fill P; quick: nrbytes classes; thorough: every nrbytes for the cheap methods */
               int cheap = !(m == M_SUNMD5 || m == M_YESCRYPT || m == M_GOST || m == M_SCRYPT || (m == M_SHA1 && counts[m][ci].c > 20000));
